@@ -260,9 +260,27 @@ func ruleR10c(h *H) {
 			}
 			return hasBase && hasInc
 		}
-		isCommitDeref := func(v ssa.Value) bool {
-			u, ok := v.(*ssa.UnOp)
-			return ok && u.Op == token.MUL && ir.Canon(u.X) == ssa.Value(commit)
+		var isCommitDeref func(v ssa.Value) bool
+		isCommitDeref = func(v ssa.Value) bool {
+			if u, ok := v.(*ssa.UnOp); ok && u.Op == token.MUL && ir.Canon(u.X) == ssa.Value(commit) {
+				return true
+			}
+			// the dereference hoisted out of the loop: a local that holds *commitOffset
+			// whenever the pointer is not nil (and a constant otherwise)
+			if phi, ok := ir.Canon(v).(*ssa.Phi); ok {
+				derefs := 0
+				for _, e := range phi.Edges {
+					if _, isK := e.(*ssa.Const); isK {
+						continue
+					}
+					if !isCommitDeref(e) {
+						return false
+					}
+					derefs++
+				}
+				return derefs > 0
+			}
+			return false
 		}
 		// calls errors.Is(err, ErrOffsetOutOfBounds|ErrDataCorrupted): the "damaged" classification
 		damagedEdges := map[ir.Edge]bool{}
@@ -699,8 +717,9 @@ func ruleR10j(h *H) {
 		}
 		// only where the result becomes a read-write segment (the read-only path rebuilds an index file)
 		rw := false
-		for i := 0; i < fn.Signature.Results().Len(); i++ {
-			if ir.TypeIs(fn.Signature.Results().At(i).Type(), "server/wal", "ReadWriteSegment") {
+		root := regionRoot(fn) // the recovery step may be an extracted part of the constructor
+		for i := 0; i < root.Signature.Results().Len(); i++ {
+			if ir.TypeIs(root.Signature.Results().At(i).Type(), "server/wal", "ReadWriteSegment") {
 				rw = true
 			}
 		}
